@@ -11,6 +11,11 @@ pub struct C16;
 
 const NAMES: [&str; 10] = ["clk", "state0", "mem", "top.u1.sig", "x$y", "a[3]", "q", "data_in", "_state_1", "Ünï"];
 
+/// what a name in a witness cannot contain: the format's token separators (blank, tab), the comment
+/// start, the frame markers, and line terminators (`str::lines` and the characters Rust's `lines` /
+/// `trim` treat as ends of lines)
+const NAME_FORBIDDEN: [char; 9] = [' ', '\t', ';', '@', '#', '\u{85}', '\u{2028}', '\u{b}', '\u{c}'];
+
 #[derive(Clone, Debug)]
 enum RefInit {
     Bv(Bv),
@@ -48,7 +53,11 @@ fn gen_witness(t: &mut Tape, tag: usize) -> RefWitness {
     let n_states = t.below(7);
     let mut init = vec![];
     for k in 0..n_states {
-        let name = format!("{}{}_{}", NAMES[t.below(NAMES.len() as u32) as usize], k, tag);
+        let name = if t.chance(64) {
+            crate::gen_expr::random_name(t, &NAME_FORBIDDEN, &format!("{}_{}", k, tag))
+        } else {
+            format!("{}{}_{}", NAMES[t.below(NAMES.len() as u32) as usize], k, tag)
+        };
         if t.chance(70) {
             // array state: index width 1..64, data width
             let iw = match t.below(4) {
@@ -81,7 +90,15 @@ fn gen_witness(t: &mut Tape, tag: usize) -> RefWitness {
     }
     let n_inputs = t.below(6);
     let input_names: Vec<String> =
-        (0..n_inputs).map(|k| format!("{}_in{}_{}", NAMES[t.below(NAMES.len() as u32) as usize], k, tag)).collect();
+        (0..n_inputs)
+            .map(|k| {
+                if t.chance(64) {
+                    crate::gen_expr::random_name(t, &NAME_FORBIDDEN, &format!("_in{}_{}", k, tag))
+                } else {
+                    format!("{}_in{}_{}", NAMES[t.below(NAMES.len() as u32) as usize], k, tag)
+                }
+            })
+            .collect();
     let widths: Vec<u32> = (0..n_inputs).map(|_| pick_width(t)).collect();
     // a property that already fails in the initial state gives a witness with a state frame and no
     // input frame at all (zero steps); without states there is always at least one step
